@@ -454,6 +454,19 @@ impl<'a, D: Dialect> RunProgramContext<'a, D> {
                 start_cost: current_cost,
             });
 
+            #[cfg(feature = "verif-hooks")]
+            if crate::verif::probe_enabled() {
+                crate::verif::probe(crate::verif::Probe::GuardEnter {
+                    depth: self.softfork_stack.len(),
+                    atoms: self.allocator.atom_count(),
+                    pairs: self.allocator.pair_count(),
+                    heap: self.allocator.heap_size(),
+                    cost: current_cost,
+                    expected_cost,
+                    exempt: matches!(ext, OperatorSet::PreHardFork),
+                });
+            }
+
             // once the softfork guard exits, we need to ensure the cost that was
             // specified match the true cost. We also free heap allocations
             self.op_stack.push(Operation::ExitGuard);
@@ -507,6 +520,16 @@ impl<'a, D: Dialect> RunProgramContext<'a, D> {
         // escape the softfork program, and it's therefore safe to restore the
         // heap
         self.allocator.restore_checkpoint(&guard.allocator_state);
+        #[cfg(feature = "verif-hooks")]
+        if crate::verif::probe_enabled() {
+            crate::verif::probe(crate::verif::Probe::GuardExit {
+                depth: self.softfork_stack.len() + 1,
+                atoms: self.allocator.atom_count(),
+                pairs: self.allocator.pair_count(),
+                heap: self.allocator.heap_size(),
+                cost: current_cost,
+            });
+        }
 
         // the softfork always returns nil, pop the value pushed by the
         // evaluation of the program and push nil instead
@@ -588,6 +611,16 @@ impl<'a, D: Dialect> RunProgramContext<'a, D> {
                     0
                 }
             };
+            #[cfg(feature = "verif-hooks")]
+            if crate::verif::probe_enabled() {
+                crate::verif::probe(crate::verif::Probe::Step {
+                    cost,
+                    atoms: self.allocator.atom_count(),
+                    pairs: self.allocator.pair_count(),
+                    heap: self.allocator.heap_size(),
+                    op: self.op_stack.len().min(255) as u8,
+                });
+            }
         }
         self.allocator.clear_validation_caches();
         Ok(Reduction(cost, self.pop()?))
